@@ -1,8 +1,8 @@
 SPECIFICATION TSpec
 CONSTANTS
-  Minerals = {"a", "b", "c"}
+  Minerals = {"a", "b", "c", "d"}
   Files = {"f1", "f2"}
-  Postfixes = {"p", "q", "r"}
+  Postfixes = {"1", "10", "q", "p", "r"}
   Configs = {}
   Seeds = {}
   Textures = {}
